@@ -15,6 +15,7 @@
 
 #include <chrono>
 #include <climits>
+#include <utility>
 
 namespace {
 namespace ec = etl::chrono;
@@ -27,7 +28,7 @@ struct EN {
     using month_day = ec::month_day; using month_day_last = ec::month_day_last;
     using month_weekday = ec::month_weekday; using month_weekday_last = ec::month_weekday_last;
     using year_month = ec::year_month; using year_month_day = ec::year_month_day;
-    using year_month_day_last = ec::year_month_day_last; using year_month_weekday = ec::year_month_weekday;
+    using year_month_day_last = ec::year_month_day_last; using year_month_weekday = ec::year_month_weekday; using year_month_weekday_last = ec::year_month_weekday_last;
     using days = ec::days; using months = ec::months; using years = ec::years;
     using sys_days = ec::sys_days; using local_days = ec::local_days;
     static constexpr auto last() { return ec::last; }
@@ -38,7 +39,7 @@ struct SN {
     using month_day = sc::month_day; using month_day_last = sc::month_day_last;
     using month_weekday = sc::month_weekday; using month_weekday_last = sc::month_weekday_last;
     using year_month = sc::year_month; using year_month_day = sc::year_month_day;
-    using year_month_day_last = sc::year_month_day_last; using year_month_weekday = sc::year_month_weekday;
+    using year_month_day_last = sc::year_month_day_last; using year_month_weekday = sc::year_month_weekday; using year_month_weekday_last = sc::year_month_weekday_last;
     using days = sc::days; using months = sc::months; using years = sc::years;
     using sys_days = sc::sys_days; using local_days = sc::local_days;
     static constexpr auto last() { return sc::last; }
@@ -127,26 +128,51 @@ template <typename N> typename N::year_month_weekday mk_ymwd(int y, unsigned m, 
     template <typename N> Val PFX##_addeq_m(ARGDECL, long long k)                                                      \
     {                                                                                                                  \
         auto v  = MK<N>(ARGUSE);                                                                                       \
-        auto& r = (v += typename N::months{(typename N::months::rep)k});                                               \
+        auto&& r = (v += typename N::months{(typename N::months::rep)k});                                               \
         return OBS(v).add("returns-self", &r == &v);                                                                   \
     }                                                                                                                  \
     template <typename N> Val PFX##_subeq_m(ARGDECL, long long k)                                                      \
     {                                                                                                                  \
         auto v  = MK<N>(ARGUSE);                                                                                       \
-        auto& r = (v -= typename N::months{(typename N::months::rep)k});                                               \
+        auto&& r = (v -= typename N::months{(typename N::months::rep)k});                                               \
         return OBS(v).add("returns-self", &r == &v);                                                                   \
     }                                                                                                                  \
     template <typename N> Val PFX##_addeq_y(ARGDECL, long long k)                                                      \
     {                                                                                                                  \
         auto v  = MK<N>(ARGUSE);                                                                                       \
-        auto& r = (v += typename N::years{(typename N::years::rep)k});                                                 \
+        auto&& r = (v += typename N::years{(typename N::years::rep)k});                                                 \
         return OBS(v).add("returns-self", &r == &v);                                                                   \
     }                                                                                                                  \
     template <typename N> Val PFX##_subeq_y(ARGDECL, long long k)                                                      \
     {                                                                                                                  \
         auto v  = MK<N>(ARGUSE);                                                                                       \
-        auto& r = (v -= typename N::years{(typename N::years::rep)k});                                                 \
+        auto&& r = (v -= typename N::years{(typename N::years::rep)k});                                                 \
         return OBS(v).add("returns-self", &r == &v);                                                                   \
+    }                                                                                                                  \
+    /* chained use: the result of the compound assignment is the left operand of the next one; final state of v */    \
+    template <typename N> Val PFX##_ch_addsub_m(ARGDECL, long long k)                                                  \
+    {                                                                                                                  \
+        auto v = MK<N>(ARGUSE);                                                                                        \
+        (v += typename N::months{(typename N::months::rep)k}) -= typename N::months{(typename N::months::rep)k};       \
+        return OBS(v);                                                                                                 \
+    }                                                                                                                  \
+    template <typename N> Val PFX##_ch_subadd_m(ARGDECL, long long k)                                                  \
+    {                                                                                                                  \
+        auto v = MK<N>(ARGUSE);                                                                                        \
+        (v -= typename N::months{(typename N::months::rep)k}) += typename N::months{(typename N::months::rep)k};       \
+        return OBS(v);                                                                                                 \
+    }                                                                                                                  \
+    template <typename N> Val PFX##_ch_addsub_y(ARGDECL, long long k)                                                  \
+    {                                                                                                                  \
+        auto v = MK<N>(ARGUSE);                                                                                        \
+        (v += typename N::years{(typename N::years::rep)k}) -= typename N::years{(typename N::years::rep)k};           \
+        return OBS(v);                                                                                                 \
+    }                                                                                                                  \
+    template <typename N> Val PFX##_ch_subadd_y(ARGDECL, long long k)                                                  \
+    {                                                                                                                  \
+        auto v = MK<N>(ARGUSE);                                                                                        \
+        (v -= typename N::years{(typename N::years::rep)k}) += typename N::years{(typename N::years::rep)k};           \
+        return OBS(v);                                                                                                 \
     }
 
 #define COMMA ,
@@ -168,17 +194,17 @@ template <typename N> Val mo_sub(unsigned m, long long k) { return v_month(typen
 template <typename N> Val mo_addeq(unsigned m, long long k)
 {
     typename N::month v{m};
-    auto& r = (v += typename N::months{(typename N::months::rep)k});
+    auto&& r = (v += typename N::months{(typename N::months::rep)k});
     return v_month(v).add("returns-self", &r == &v);
 }
 template <typename N> Val mo_subeq(unsigned m, long long k)
 {
     typename N::month v{m};
-    auto& r = (v -= typename N::months{(typename N::months::rep)k});
+    auto&& r = (v -= typename N::months{(typename N::months::rep)k});
     return v_month(v).add("returns-self", &r == &v);
 }
-template <typename N> Val mo_preinc(unsigned m, long long) { typename N::month v{m}; auto& r = ++v; return v_month(v).add("returns-self", &r == &v); }
-template <typename N> Val mo_predec(unsigned m, long long) { typename N::month v{m}; auto& r = --v; return v_month(v).add("returns-self", &r == &v); }
+template <typename N> Val mo_preinc(unsigned m, long long) { typename N::month v{m}; auto&& r = ++v; return v_month(v).add("returns-self", &r == &v); }
+template <typename N> Val mo_predec(unsigned m, long long) { typename N::month v{m}; auto&& r = --v; return v_month(v).add("returns-self", &r == &v); }
 template <typename N> Val mo_postinc(unsigned m, long long) { typename N::month v{m}; auto old = v++; return v_month(v).add("returned", unsigned(old)); }
 template <typename N> Val mo_postdec(unsigned m, long long) { typename N::month v{m}; auto old = v--; return v_month(v).add("returned", unsigned(old)); }
 template <typename N> Val mo_diff(unsigned a, long long b) { return Val{}.add("months", (typename N::month{a} - typename N::month{(unsigned)b}).count()); }
@@ -195,17 +221,17 @@ template <typename N> Val wd_sub(unsigned w, long long k) { return v_wd(typename
 template <typename N> Val wd_addeq(unsigned w, long long k)
 {
     typename N::weekday v{w};
-    auto& r = (v += typename N::days{(typename N::days::rep)k});
+    auto&& r = (v += typename N::days{(typename N::days::rep)k});
     return v_wd(v).add("returns-self", &r == &v);
 }
 template <typename N> Val wd_subeq(unsigned w, long long k)
 {
     typename N::weekday v{w};
-    auto& r = (v -= typename N::days{(typename N::days::rep)k});
+    auto&& r = (v -= typename N::days{(typename N::days::rep)k});
     return v_wd(v).add("returns-self", &r == &v);
 }
-template <typename N> Val wd_preinc(unsigned w, long long) { typename N::weekday v{w}; auto& r = ++v; return v_wd(v).add("returns-self", &r == &v); }
-template <typename N> Val wd_predec(unsigned w, long long) { typename N::weekday v{w}; auto& r = --v; return v_wd(v).add("returns-self", &r == &v); }
+template <typename N> Val wd_preinc(unsigned w, long long) { typename N::weekday v{w}; auto&& r = ++v; return v_wd(v).add("returns-self", &r == &v); }
+template <typename N> Val wd_predec(unsigned w, long long) { typename N::weekday v{w}; auto&& r = --v; return v_wd(v).add("returns-self", &r == &v); }
 template <typename N> Val wd_postinc(unsigned w, long long) { typename N::weekday v{w}; auto old = v++; return v_wd(v).add("returned", old.c_encoding()); }
 template <typename N> Val wd_postdec(unsigned w, long long) { typename N::weekday v{w}; auto old = v--; return v_wd(v).add("returned", old.c_encoding()); }
 template <typename N> Val wd_diff(unsigned a, long long b) { return Val{}.add("days", (typename N::weekday{a} - typename N::weekday{(unsigned)b}).count()); }
@@ -233,17 +259,17 @@ template <typename N> Val yr_sub(int y, long long k) { return v_year(typename N:
 template <typename N> Val yr_addeq(int y, long long k)
 {
     typename N::year v{y};
-    auto& r = (v += typename N::years{(typename N::years::rep)k});
+    auto&& r = (v += typename N::years{(typename N::years::rep)k});
     return v_year(v).add("returns-self", &r == &v);
 }
 template <typename N> Val yr_subeq(int y, long long k)
 {
     typename N::year v{y};
-    auto& r = (v -= typename N::years{(typename N::years::rep)k});
+    auto&& r = (v -= typename N::years{(typename N::years::rep)k});
     return v_year(v).add("returns-self", &r == &v);
 }
-template <typename N> Val yr_preinc(int y, long long) { typename N::year v{y}; auto& r = ++v; return v_year(v).add("returns-self", &r == &v); }
-template <typename N> Val yr_predec(int y, long long) { typename N::year v{y}; auto& r = --v; return v_year(v).add("returns-self", &r == &v); }
+template <typename N> Val yr_preinc(int y, long long) { typename N::year v{y}; auto&& r = ++v; return v_year(v).add("returns-self", &r == &v); }
+template <typename N> Val yr_predec(int y, long long) { typename N::year v{y}; auto&& r = --v; return v_year(v).add("returns-self", &r == &v); }
 template <typename N> Val yr_postinc(int y, long long) { typename N::year v{y}; auto old = v++; return v_year(v).add("returned", int(old)); }
 template <typename N> Val yr_postdec(int y, long long) { typename N::year v{y}; auto old = v--; return v_year(v).add("returned", int(old)); }
 template <typename N> Val yr_neg(int y, long long) { return v_year(-typename N::year{y}); }
@@ -263,17 +289,17 @@ template <typename N> Val dy_sub(unsigned d, long long k) { return v_day(typenam
 template <typename N> Val dy_addeq(unsigned d, long long k)
 {
     typename N::day v{d};
-    auto& r = (v += typename N::days{(typename N::days::rep)k});
+    auto&& r = (v += typename N::days{(typename N::days::rep)k});
     return v_day(v).add("returns-self", &r == &v);
 }
 template <typename N> Val dy_subeq(unsigned d, long long k)
 {
     typename N::day v{d};
-    auto& r = (v -= typename N::days{(typename N::days::rep)k});
+    auto&& r = (v -= typename N::days{(typename N::days::rep)k});
     return v_day(v).add("returns-self", &r == &v);
 }
-template <typename N> Val dy_preinc(unsigned d, long long) { typename N::day v{d}; auto& r = ++v; return v_day(v).add("returns-self", &r == &v); }
-template <typename N> Val dy_predec(unsigned d, long long) { typename N::day v{d}; auto& r = --v; return v_day(v).add("returns-self", &r == &v); }
+template <typename N> Val dy_preinc(unsigned d, long long) { typename N::day v{d}; auto&& r = ++v; return v_day(v).add("returns-self", &r == &v); }
+template <typename N> Val dy_predec(unsigned d, long long) { typename N::day v{d}; auto&& r = --v; return v_day(v).add("returns-self", &r == &v); }
 template <typename N> Val dy_postinc(unsigned d, long long) { typename N::day v{d}; auto old = v++; return v_day(v).add("returned", unsigned(old)); }
 template <typename N> Val dy_postdec(unsigned d, long long) { typename N::day v{d}; auto old = v--; return v_day(v).add("returned", unsigned(old)); }
 template <typename N> Val dy_diff(unsigned a, long long b) { return Val{}.add("days", (typename N::day{a} - typename N::day{(unsigned)b}).count()); }
@@ -282,6 +308,24 @@ template <typename N> Val dy_cmp(unsigned a, long long bb)
     typename N::day x{a}, y{(unsigned)bb};
     return Val{}.add("==", x == y).add("!=", x != y).add("<", x < y).add("<=", x <= y).add(">", x > y).add(">=", x >= y);
 }
+
+// chained uses of the compound / increment operators of the scalar calendar types (final state of the object)
+template <typename N> Val mo_ch_addsub(unsigned a, long long k) { typename N::month v{a}; (v += typename N::months{(typename N::months::rep)k}) -= typename N::months{(typename N::months::rep)k}; return v_month(v); }
+template <typename N> Val mo_ch_subadd(unsigned a, long long k) { typename N::month v{a}; (v -= typename N::months{(typename N::months::rep)k}) += typename N::months{(typename N::months::rep)k}; return v_month(v); }
+template <typename N> Val mo_ch_incdec(unsigned a, long long) { typename N::month v{a}; --(++v); return v_month(v); }
+template <typename N> Val mo_ch_decinc(unsigned a, long long) { typename N::month v{a}; ++(--v); return v_month(v); }
+template <typename N> Val wd_ch_addsub(unsigned a, long long k) { typename N::weekday v{a}; (v += typename N::days{(typename N::days::rep)k}) -= typename N::days{(typename N::days::rep)k}; return v_wd(v); }
+template <typename N> Val wd_ch_subadd(unsigned a, long long k) { typename N::weekday v{a}; (v -= typename N::days{(typename N::days::rep)k}) += typename N::days{(typename N::days::rep)k}; return v_wd(v); }
+template <typename N> Val wd_ch_incdec(unsigned a, long long) { typename N::weekday v{a}; --(++v); return v_wd(v); }
+template <typename N> Val wd_ch_decinc(unsigned a, long long) { typename N::weekday v{a}; ++(--v); return v_wd(v); }
+template <typename N> Val yr_ch_addsub(int a, long long k) { typename N::year v{a}; (v += typename N::years{(typename N::years::rep)k}) -= typename N::years{(typename N::years::rep)k}; return v_year(v); }
+template <typename N> Val yr_ch_subadd(int a, long long k) { typename N::year v{a}; (v -= typename N::years{(typename N::years::rep)k}) += typename N::years{(typename N::years::rep)k}; return v_year(v); }
+template <typename N> Val yr_ch_incdec(int a, long long) { typename N::year v{a}; --(++v); return v_year(v); }
+template <typename N> Val yr_ch_decinc(int a, long long) { typename N::year v{a}; ++(--v); return v_year(v); }
+template <typename N> Val dy_ch_addsub(unsigned a, long long k) { typename N::day v{a}; (v += typename N::days{(typename N::days::rep)k}) -= typename N::days{(typename N::days::rep)k}; return v_day(v); }
+template <typename N> Val dy_ch_subadd(unsigned a, long long k) { typename N::day v{a}; (v -= typename N::days{(typename N::days::rep)k}) += typename N::days{(typename N::days::rep)k}; return v_day(v); }
+template <typename N> Val dy_ch_incdec(unsigned a, long long) { typename N::day v{a}; --(++v); return v_day(v); }
+template <typename N> Val dy_ch_decinc(unsigned a, long long) { typename N::day v{a}; ++(--v); return v_day(v); }
 
 // ------------------------------------------------------------------ the comparison step
 // reference first, breadcrumb, tetl, account, compare
@@ -537,6 +581,8 @@ void g_month(unsigned m, vf::Rng* rng)
         CMP("month", "month-months", sitn, h, mo_sub, args, m, k);
         CMP("month", "month+=months", sit, h, mo_addeq, args, m, k);
         CMP("month", "month-=months", sitn, h, mo_subeq, args, m, k);
+        CMP("month", "(month+=months)-=months", sit, h, mo_ch_addsub, args, m, k);
+        CMP("month", "(month-=months)+=months", sitn, h, mo_ch_subadd, args, m, k);
     }
     if (!rng) {
         std::snprintf(args, sizeof args, "m=%u", m);
@@ -544,6 +590,8 @@ void g_month(unsigned m, vf::Rng* rng)
         CMP("month", "month++", m == 12 ? "december" : "not-december", m, mo_postinc, args, m, 0);
         CMP("month", "--month", m == 1 ? "january" : "not-january", m, mo_predec, args, m, 0);
         CMP("month", "month--", m == 1 ? "january" : "not-january", m, mo_postdec, args, m, 0);
+        CMP("month", "--(++month)", m == 12 ? "december" : "not-december", m, mo_ch_incdec, args, m, 0);
+        CMP("month", "++(--month)", m == 1 ? "january" : "not-january", m, mo_ch_decinc, args, m, 0);
         for (unsigned b = 1; b <= 12; ++b) {
             std::snprintf(args, sizeof args, "a=%u b=%u", m, b);
             CMP("month", "month-month", m >= b ? "a>=b" : "a<b", vf::mix(m, b), mo_diff, args, m, (long long)b);
@@ -582,6 +630,8 @@ void g_weekday(unsigned w, vf::Rng* rng)
         if (k != -2147483648ll) { // x - y is defined as x + -y : -y must be representable in days::rep
             CMP("weekday", "weekday-days", sitn, h, wd_sub, args, w, k);
             CMP("weekday", "weekday-=days", sitn, h, wd_subeq, args, w, k);
+            CMP("weekday", "(weekday+=days)-=days", sit, h, wd_ch_addsub, args, w, k);
+            CMP("weekday", "(weekday-=days)+=days", sitn, h, wd_ch_subadd, args, w, k);
         }
     }
     if (!rng) {
@@ -590,6 +640,8 @@ void g_weekday(unsigned w, vf::Rng* rng)
         CMP("weekday", "weekday++", w == 6 ? "saturday" : "not-saturday", w, wd_postinc, args, w, 0);
         CMP("weekday", "--weekday", w == 0 ? "sunday" : "not-sunday", w, wd_predec, args, w, 0);
         CMP("weekday", "weekday--", w == 0 ? "sunday" : "not-sunday", w, wd_postdec, args, w, 0);
+        CMP("weekday", "--(++weekday)", w == 6 ? "saturday" : "not-saturday", w, wd_ch_incdec, args, w, 0);
+        CMP("weekday", "++(--weekday)", w == 0 ? "sunday" : "not-sunday", w, wd_ch_decinc, args, w, 0);
         CMP("weekday", "weekday(unsigned)", "0..6", w, wd_ctor, args, w, 0);
         CMP("weekday", "operator[](last)", "0..6", w, wd_last, args, w, 0);
         if (w == 0) {
@@ -638,10 +690,12 @@ void g_year(int y, vf::Rng* rng)
             CMP("year", "year+years", lsit(up, k), h, yr_add, args, y, k);
             CMP("year", "years+year", lsit(up, k), h, yr_radd, args, y, k);
             CMP("year", "year+=years", lsit(up, k), h, yr_addeq, args, y, k);
+            CMP("year", "(year+=years)-=years", lsit(up, k), h, yr_ch_addsub, args, y, k);
         }
         if (year_in_range(dn)) {
             CMP("year", "year-years", lsit(dn, k), h, yr_sub, args, y, k);
             CMP("year", "year-=years", lsit(dn, k), h, yr_subeq, args, y, k);
+            CMP("year", "(year-=years)+=years", lsit(dn, k), h, yr_ch_subadd, args, y, k);
         }
         // year - year for another year reachable by that delta
         if (year_in_range(up)) {
@@ -656,10 +710,12 @@ void g_year(int y, vf::Rng* rng)
         if (y < vfcal::kYearMax) {
             CMP("year", "++year", "below-max", h, yr_preinc, args, y, 0);
             CMP("year", "year++", "below-max", h, yr_postinc, args, y, 0);
+            CMP("year", "--(++year)", "below-max", h, yr_ch_incdec, args, y, 0);
         }
         if (y > vfcal::kYearMin) {
             CMP("year", "--year", "above-min", h, yr_predec, args, y, 0);
             CMP("year", "year--", "above-min", h, yr_postdec, args, y, 0);
+            CMP("year", "++(--year)", "above-min", h, yr_ch_decinc, args, y, 0);
         }
         CMP("year", "-year", y == 0 ? "zero" : (y > 0 ? "positive" : "negative"), h, yr_neg, args, y, 0);
         CMP("year", "+year", y == 0 ? "zero" : (y > 0 ? "positive" : "negative"), h, yr_pos, args, y, 0);
@@ -680,18 +736,22 @@ void g_day(unsigned part)
                 CMP("day", "day+days", delta_sit(k, 45), h, dy_add, args, d, k);
                 CMP("day", "days+day", delta_sit(k, 45), h, dy_radd, args, d, k);
                 CMP("day", "day+=days", delta_sit(k, 45), h, dy_addeq, args, d, k);
+                CMP("day", "(day+=days)-=days", delta_sit(k, 45), h, dy_ch_addsub, args, d, k);
             }
             if (dn >= 0 && dn <= 254) {
                 CMP("day", "day-days", delta_sit(k, 45), h, dy_sub, args, d, k);
                 CMP("day", "day-=days", delta_sit(k, 45), h, dy_subeq, args, d, k);
+                CMP("day", "(day-=days)+=days", delta_sit(k, 45), h, dy_ch_subadd, args, d, k);
             }
         }
         std::snprintf(args, sizeof args, "d=%u", d);
         CMP("day", "++day", "any", d, dy_preinc, args, d, 0);
         CMP("day", "day++", "any", d, dy_postinc, args, d, 0);
+        CMP("day", "--(++day)", "any", d, dy_ch_incdec, args, d, 0);
         if (d > 0) {
             CMP("day", "--day", "above-zero", d, dy_predec, args, d, 0);
             CMP("day", "day--", "above-zero", d, dy_postdec, args, d, 0);
+            CMP("day", "++(--day)", "above-zero", d, dy_ch_decinc, args, d, 0);
         }
         for (unsigned b = 0; b <= 33; ++b) {
             std::snprintf(args, sizeof args, "a=%u b=%u", d, b);
@@ -729,10 +789,12 @@ void g_ym(int y, std::vector<long long> const& ks, std::vector<long long> const&
                 CMP("year_month", "ym+months", carry_sit(m, k), h, ym_add_m, args, y, m, k);
                 CMP("year_month", "months+ym", carry_sit(m, k), h, ym_radd_m, args, y, m, k);
                 CMP("year_month", "ym+=months", carry_sit(m, k), h, ym_addeq_m, args, y, m, k);
+                CMP("year_month", "(ym+=months)-=months", carry_sit(m, k), h, ym_ch_addsub_m, args, y, m, k);
             }
             if (year_in_range((long long)y + fdiv((long long)m - 1 - k, 12))) {
                 CMP("year_month", "ym-months", carry_sit(m, -k), h, ym_sub_m, args, y, m, k);
                 CMP("year_month", "ym-=months", carry_sit(m, -k), h, ym_subeq_m, args, y, m, k);
+                CMP("year_month", "(ym-=months)+=months", carry_sit(m, -k), h, ym_ch_subadd_m, args, y, m, k);
             }
         }
         for (long long k : yks) {
@@ -742,10 +804,12 @@ void g_ym(int y, std::vector<long long> const& ks, std::vector<long long> const&
                 CMP("year_month", "ym+years", delta_sit(k, 4), h, ym_add_y, args, y, m, k);
                 CMP("year_month", "years+ym", delta_sit(k, 4), h, ym_radd_y, args, y, m, k);
                 CMP("year_month", "ym+=years", delta_sit(k, 4), h, ym_addeq_y, args, y, m, k);
+                CMP("year_month", "(ym+=years)-=years", delta_sit(k, 4), h, ym_ch_addsub_y, args, y, m, k);
             }
             if (year_in_range((long long)y - k)) {
                 CMP("year_month", "ym-years", delta_sit(k, 4), h, ym_sub_y, args, y, m, k);
                 CMP("year_month", "ym-=years", delta_sit(k, 4), h, ym_subeq_y, args, y, m, k);
+                CMP("year_month", "(ym-=years)+=years", delta_sit(k, 4), h, ym_ch_subadd_y, args, y, m, k);
             }
         }
     }
@@ -764,10 +828,12 @@ void g_ymd(int y, std::vector<long long> const& ks, std::vector<long long> const
                     CMP("year_month_day", "ymd+months", carry_sit(m, k), h, ymd_add_m, args, y, m, d, k);
                     CMP("year_month_day", "months+ymd", carry_sit(m, k), h, ymd_radd_m, args, y, m, d, k);
                     CMP("year_month_day", "ymd+=months", carry_sit(m, k), h, ymd_addeq_m, args, y, m, d, k);
+                    CMP("year_month_day", "(ymd+=months)-=months", carry_sit(m, k), h, ymd_ch_addsub_m, args, y, m, d, k);
                 }
                 if (year_in_range((long long)y + fdiv((long long)m - 1 - k, 12))) {
                     CMP("year_month_day", "ymd-months", carry_sit(m, -k), h, ymd_sub_m, args, y, m, d, k);
                     CMP("year_month_day", "ymd-=months", carry_sit(m, -k), h, ymd_subeq_m, args, y, m, d, k);
+                    CMP("year_month_day", "(ymd-=months)+=months", carry_sit(m, -k), h, ymd_ch_subadd_m, args, y, m, d, k);
                 }
             }
             for (long long k : yks) {
@@ -778,10 +844,12 @@ void g_ymd(int y, std::vector<long long> const& ks, std::vector<long long> const
                     CMP("year_month_day", "ymd+years", sit, h, ymd_add_y, args, y, m, d, k);
                     CMP("year_month_day", "years+ymd", sit, h, ymd_radd_y, args, y, m, d, k);
                     CMP("year_month_day", "ymd+=years", sit, h, ymd_addeq_y, args, y, m, d, k);
+                    CMP("year_month_day", "(ymd+=years)-=years", sit, h, ymd_ch_addsub_y, args, y, m, d, k);
                 }
                 if (year_in_range((long long)y - k)) {
                     CMP("year_month_day", "ymd-years", sit, h, ymd_sub_y, args, y, m, d, k);
                     CMP("year_month_day", "ymd-=years", sit, h, ymd_subeq_y, args, y, m, d, k);
+                    CMP("year_month_day", "(ymd-=years)+=years", sit, h, ymd_ch_subadd_y, args, y, m, d, k);
                 }
             }
         }
@@ -799,10 +867,12 @@ void g_ymdl(int y, std::vector<long long> const& ks, std::vector<long long> cons
                 CMP("year_month_day_last", "ymdl+months", carry_sit(m, k), h, ymdl_add_m, args, y, m, k);
                 CMP("year_month_day_last", "months+ymdl", carry_sit(m, k), h, ymdl_radd_m, args, y, m, k);
                 CMP("year_month_day_last", "ymdl+=months", carry_sit(m, k), h, ymdl_addeq_m, args, y, m, k);
+                CMP("year_month_day_last", "(ymdl+=months)-=months", carry_sit(m, k), h, ymdl_ch_addsub_m, args, y, m, k);
             }
             if (year_in_range((long long)y + fdiv((long long)m - 1 - k, 12))) {
                 CMP("year_month_day_last", "ymdl-months", carry_sit(m, -k), h, ymdl_sub_m, args, y, m, k);
                 CMP("year_month_day_last", "ymdl-=months", carry_sit(m, -k), h, ymdl_subeq_m, args, y, m, k);
+                CMP("year_month_day_last", "(ymdl-=months)+=months", carry_sit(m, -k), h, ymdl_ch_subadd_m, args, y, m, k);
             }
         }
         for (long long k : yks) {
@@ -813,10 +883,12 @@ void g_ymdl(int y, std::vector<long long> const& ks, std::vector<long long> cons
                 CMP("year_month_day_last", "ymdl+years", sit, h, ymdl_add_y, args, y, m, k);
                 CMP("year_month_day_last", "years+ymdl", sit, h, ymdl_radd_y, args, y, m, k);
                 CMP("year_month_day_last", "ymdl+=years", sit, h, ymdl_addeq_y, args, y, m, k);
+                CMP("year_month_day_last", "(ymdl+=years)-=years", sit, h, ymdl_ch_addsub_y, args, y, m, k);
             }
             if (year_in_range((long long)y - k)) {
                 CMP("year_month_day_last", "ymdl-years", sit, h, ymdl_sub_y, args, y, m, k);
                 CMP("year_month_day_last", "ymdl-=years", sit, h, ymdl_subeq_y, args, y, m, k);
+                CMP("year_month_day_last", "(ymdl-=years)+=years", sit, h, ymdl_ch_subadd_y, args, y, m, k);
             }
         }
     }
@@ -934,8 +1006,56 @@ void list_absent()
     note("year_month_weekday operator!=", can_ne<EYMWD, EYMWD>);
 }
 
+// declared result types of the compound / increment operators: lvalue reference to the object (postfix: prvalue).
+// Only the declarations are needed, so this is safe for the members that the snapshot tree declared but did not define.
+template <typename N>
+std::vector<std::pair<char const*, bool>> lvalue_type_facts()
+{
+    using M = typename N::months; using Y = typename N::years; using D = typename N::days;
+#define LREF(T_, OP, A_) std::is_same_v<decltype(std::declval<T_&>() OP std::declval<A_ const&>()), T_&>
+#define PRE(T_, OP) std::is_same_v<decltype(OP std::declval<T_&>()), T_&>
+#define POST(T_, OP) std::is_same_v<decltype(std::declval<T_&>() OP), T_>
+    using yr = typename N::year; using mo = typename N::month; using dy = typename N::day; using wd = typename N::weekday;
+    using ym = typename N::year_month; using ymd = typename N::year_month_day; using ymdl = typename N::year_month_day_last;
+    using ymwd = typename N::year_month_weekday; using ymwdl = typename N::year_month_weekday_last;
+    return {
+        {"decltype(year+=years) is year&", LREF(yr, +=, Y)}, {"decltype(year-=years) is year&", LREF(yr, -=, Y)},
+        {"decltype(++year) is year&", PRE(yr, ++)}, {"decltype(--year) is year&", PRE(yr, --)}, {"decltype(year++) is year", POST(yr, ++)}, {"decltype(year--) is year", POST(yr, --)},
+        {"decltype(month+=months) is month&", LREF(mo, +=, M)}, {"decltype(month-=months) is month&", LREF(mo, -=, M)},
+        {"decltype(++month) is month&", PRE(mo, ++)}, {"decltype(--month) is month&", PRE(mo, --)}, {"decltype(month++) is month", POST(mo, ++)}, {"decltype(month--) is month", POST(mo, --)},
+        {"decltype(day+=days) is day&", LREF(dy, +=, D)}, {"decltype(day-=days) is day&", LREF(dy, -=, D)},
+        {"decltype(++day) is day&", PRE(dy, ++)}, {"decltype(--day) is day&", PRE(dy, --)}, {"decltype(day++) is day", POST(dy, ++)}, {"decltype(day--) is day", POST(dy, --)},
+        {"decltype(weekday+=days) is weekday&", LREF(wd, +=, D)}, {"decltype(weekday-=days) is weekday&", LREF(wd, -=, D)},
+        {"decltype(++weekday) is weekday&", PRE(wd, ++)}, {"decltype(--weekday) is weekday&", PRE(wd, --)}, {"decltype(weekday++) is weekday", POST(wd, ++)}, {"decltype(weekday--) is weekday", POST(wd, --)},
+        {"decltype(year_month+=months) is year_month&", LREF(ym, +=, M)}, {"decltype(year_month-=months) is year_month&", LREF(ym, -=, M)},
+        {"decltype(year_month+=years) is year_month&", LREF(ym, +=, Y)}, {"decltype(year_month-=years) is year_month&", LREF(ym, -=, Y)},
+        {"decltype(year_month_day+=months) is year_month_day&", LREF(ymd, +=, M)}, {"decltype(year_month_day-=months) is year_month_day&", LREF(ymd, -=, M)},
+        {"decltype(year_month_day+=years) is year_month_day&", LREF(ymd, +=, Y)}, {"decltype(year_month_day-=years) is year_month_day&", LREF(ymd, -=, Y)},
+        {"decltype(year_month_day_last+=months) is ymdl&", LREF(ymdl, +=, M)}, {"decltype(year_month_day_last-=months) is ymdl&", LREF(ymdl, -=, M)},
+        {"decltype(year_month_day_last+=years) is ymdl&", LREF(ymdl, +=, Y)}, {"decltype(year_month_day_last-=years) is ymdl&", LREF(ymdl, -=, Y)},
+        {"decltype(year_month_weekday+=months) is ymwd&", LREF(ymwd, +=, M)}, {"decltype(year_month_weekday-=months) is ymwd&", LREF(ymwd, -=, M)},
+        {"decltype(year_month_weekday+=years) is ymwd&", LREF(ymwd, +=, Y)}, {"decltype(year_month_weekday-=years) is ymwd&", LREF(ymwd, -=, Y)},
+        {"decltype(year_month_weekday_last+=months) is ymwdl&", LREF(ymwdl, +=, M)}, {"decltype(year_month_weekday_last-=months) is ymwdl&", LREF(ymwdl, -=, M)},
+        {"decltype(year_month_weekday_last+=years) is ymwdl&", LREF(ymwdl, +=, Y)}, {"decltype(year_month_weekday_last-=years) is ymwdl&", LREF(ymwdl, -=, Y)},
+    };
+#undef LREF
+#undef PRE
+#undef POST
+}
+void type_facts()
+{
+    auto const e = lvalue_type_facts<EN>();
+    auto const s = lvalue_type_facts<SN>();
+    for (std::size_t i = 0; i < e.size() && i < s.size(); ++i) {
+        vf::crumb("calendar types", e[i].first, "type-level", "compile-time boolean");
+        vf::cover("type-level", vf::fnv(e[i].first), true);
+        vf::eq_bool("value", e[i].second, s[i].second);
+    }
+}
+
 void g_build()
 {
+    type_facts();
     char args[96];
     int const ys[]      = {-32767, -1, 0, 1, 1970, 2024, 32767};
     unsigned const ms[] = {1, 2, 6, 12};
